@@ -464,6 +464,69 @@ pub fn info_dates() -> DocSpec {
     b.finish(catalog, &layout, &mut rng)
 }
 
+/// DAGs outside the page tree: 18 Type0 fonts each naming the next twice as /DescendantFonts; an
+/// annotation whose appearance dictionary fans out 24 ways over four levels onto one stream; 18
+/// JBIG2 streams each naming the next twice as /JBIG2Globals of a filter chain that then fails
+pub fn dag_misc() -> DocSpec {
+    let mut b = Builder::new();
+    let depth = 18;
+    // fonts
+    let descriptor = b.add(Val::dict(vec![("Type", Val::name("FontDescriptor")), ("FontName", Val::name("Dag")), ("Flags", Val::Int(4))]));
+    let cid = b.add(Val::dict(vec![
+        ("Type", Val::name("Font")),
+        ("Subtype", Val::name("CIDFontType2")),
+        ("BaseFont", Val::name("Dag")),
+        ("CIDSystemInfo", Val::dict(vec![("Registry", Val::Str(b"Adobe".to_vec())), ("Ordering", Val::Str(b"Identity".to_vec())), ("Supplement", Val::Int(0))])),
+        ("FontDescriptor", Val::r(descriptor)),
+    ]));
+    let mut next = cid;
+    for _ in 0..depth {
+        next = b.add(Val::dict(vec![("Type", Val::name("Font")), ("Subtype", Val::name("Type0")), ("BaseFont", Val::name("Dag")), ("Encoding", Val::name("Identity-H")), ("DescendantFonts", Val::Arr(vec![Val::r(next), Val::r(next)]))]));
+    }
+    let font0 = next;
+    // appearance dictionary
+    let ap_stream = b.add_stream(vec![("Type".into(), Val::name("XObject")), ("Subtype".into(), Val::name("Form")), ("BBox".into(), rect(0, 0, 10, 10))], b"0 0 m 1 1 l S".to_vec());
+    let mut level = ap_stream;
+    for _ in 0..4 {
+        let entries: Vec<(String, Val)> = (0..24).map(|i| (format!("S{}", i), Val::r(level))).collect();
+        level = b.add(Val::Dict(entries));
+    }
+    let page = b.reserve();
+    let annot = b.add(Val::dict(vec![("Type", Val::name("Annot")), ("Subtype", Val::name("Widget")), ("Rect", rect(0, 0, 10, 10)), ("AP", Val::dict(vec![("N", Val::r(level))])), ("AS", Val::name("S0")), ("P", Val::r(page))]));
+    // JBIG2 globals
+    let mut g = b.add_stream(vec![], vec![0, 1, 2, 3]);
+    for _ in 0..depth {
+        g = b.add_stream(
+            vec![
+                ("Type".into(), Val::name("XObject")),
+                ("Subtype".into(), Val::name("Image")),
+                ("Width".into(), Val::Int(1)),
+                ("Height".into(), Val::Int(1)),
+                ("ColorSpace".into(), Val::name("DeviceGray")),
+                ("BitsPerComponent".into(), Val::Int(1)),
+                ("Filter".into(), Val::Arr(vec![Val::name("JBIG2Decode"), Val::name("JBIG2Decode"), Val::name("NoSuchDecode")])),
+                ("DecodeParms".into(), Val::Arr(vec![Val::dict(vec![("JBIG2Globals", Val::r(g))]), Val::dict(vec![("JBIG2Globals", Val::r(g))]), Val::Null])),
+            ],
+            vec![0, 1, 2, 3],
+        );
+    }
+    let catalog = b.reserve();
+    let pages = b.reserve();
+    b.put(
+        page,
+        Val::dict(vec![
+            ("Type", Val::name("Page")),
+            ("Parent", Val::r(pages)),
+            ("MediaBox", rect(0, 0, 100, 100)),
+            ("Resources", Val::dict(vec![("Font", Val::dict(vec![("F1", Val::r(font0))])), ("XObject", Val::dict(vec![("Im1", Val::r(g))]))])),
+            ("Annots", Val::Arr(vec![Val::r(annot)])),
+        ]),
+    );
+    b.put(pages, Val::dict(vec![("Type", Val::name("Pages")), ("Kids", Val::Arr(vec![Val::r(page)])), ("Count", Val::Int(1))]));
+    b.put(catalog, Val::dict(vec![("Type", Val::name("Catalog")), ("Pages", Val::r(pages))]));
+    finish_classic(b, catalog)
+}
+
 pub fn rich_all() -> DocSpec {
     let mut rng = Rng::new(7);
     families::rich(&mut rng, &families::RichOpts::all(), &Layout::classic())
@@ -487,6 +550,7 @@ pub fn all() -> Vec<(&'static str, DocSpec)> {
         ("annots", annots()),
         ("info_dates", info_dates()),
         ("dag_trees", dag_trees()),
+        ("dag_misc", dag_misc()),
         ("long_chain", long_chain()),
         ("rich", rich_all()),
     ]
